@@ -1039,10 +1039,26 @@ class Canonicaliser:
 
         def simple(f):
             body = [b for b in f.body if not (isinstance(b, ast.Expr) and isinstance(b.value, ast.Constant))]
+            # leading `name = <expression of the wrapped function's name>` (flow_name = fn.__name__): bound where applied
+            pre = []
+            while body and isinstance(body[0], ast.Assign) and len(body[0].targets) == 1 and isinstance(body[0].targets[0], ast.Name) \
+                    and len(f.args.args) == 1 and all(
+                        not (isinstance(x, ast.Name) and x.id == f.args.args[0].arg)
+                        or (isinstance(getattr(x, "_p", None), ast.Attribute) and x._p.attr in ("__name__", "__qualname__"))
+                        for x in self._mark_parents(body[0].value)):
+                pre.append((body[0].targets[0].id, body[0].value))
+                body = body[1:]
             if len(body) == 2 and isinstance(body[0], ast.FunctionDef) and isinstance(body[1], ast.Return) \
-                    and isinstance(body[1].value, ast.Name) and body[1].value.id == body[0].name and len(f.args.args) == 1:
+                    and len(f.args.args) == 1:
+                rv = body[1].value
+                as_property = isinstance(rv, ast.Call) and isinstance(rv.func, ast.Name) and rv.func.id == "property" \
+                    and len(rv.args) == 1 and not rv.keywords
+                if as_property:
+                    rv = rv.args[0]
                 w = body[0]
-                if all(isinstance(x, ast.Call) and norm_name(x.func) in ("wraps", "functools.wraps") for x in w.decorator_list):
+                if isinstance(rv, ast.Name) and rv.id == w.name and all(
+                        isinstance(x, ast.Call) and norm_name(x.func) in ("wraps", "functools.wraps") for x in w.decorator_list):
+                    w._efa_pre, w._efa_property = pre, as_property
                     return f.args.args[0].arg, w
             return None
         if isinstance(dnode, ast.Name):
@@ -1066,6 +1082,15 @@ class Canonicaliser:
                 return None
             return bind, r[0], r[1]
         return None
+
+    @staticmethod
+    def _mark_parents(expr):
+        out = []
+        for n in ast.walk(expr):
+            for ch in ast.iter_child_nodes(n):
+                ch._p = n
+            out.append(n)
+        return out
 
     def apply_decorators(self):
         """a method decorated with a simple decorator of the package reads as the decorator's wrapper, the original body
@@ -1115,6 +1140,14 @@ class Canonicaliser:
                                     T.ok = False
                                 return node
                         mapping = {k: v for k, v in bind.items()}
+                        for pn, pv in getattr(w, "_efa_pre", []):
+                            class _NameOf(ast.NodeTransformer):
+                                def visit_Attribute(self, a):
+                                    if isinstance(a.value, ast.Name) and a.value.id == fparam and a.attr in ("__name__", "__qualname__"):
+                                        return ast.Constant(value=f.name)
+                                    self.generic_visit(a)
+                                    return a
+                            mapping[pn] = _NameOf().visit(clone(pv))
                         newbody = [T().visit(substitute_stmt(clone(b), mapping)) for b in w.body]
                         if not T.ok or wps[0] != fps[0]:
                             break
@@ -1128,6 +1161,9 @@ class Canonicaliser:
                         f.body = newbody
                         fold_static(f)
                         f.decorator_list = f.decorator_list[:-1]
+                        if getattr(w, "_efa_property", False):
+                            # `return property(wrapper)`: the decorated name is a property
+                            f.decorator_list.append(ast.copy_location(ast.Name(id="property", ctx=ast.Load()), f))
                         added.append(helper)
                         n_applied += 1
                 cls.body += added
